@@ -7,11 +7,24 @@ Local Open Scope Z_scope.
 
 Ltac mstep H := rewrite (bind_eq _ _ _ _ _ H); cbn beta iota.
 
+(** "compare_strings(...) <= 0" as a boolean relation on nodes *)
+Definition le_of (cmpf : positive -> positive -> Z) (x y : positive) : bool := cmpf x y <=? 0.
+
+(** The loops are specified for ANY node predicate [okn] and comparison function [cmpf] such that
+    the key loads and [compare_strings] succeed on [okn] nodes and return [cmpf]; no order property
+    of [cmpf] is used here.  SortProofs.v instantiates this twice: members with string keys
+    ([node_ok], [kcmp]: a total preorder) and members whose key may be NULL ([node_ok0], [cmpz]). *)
 Section Loops.
   Variable h : heap.
   Variable cs : bool.
-  Notation le := (hle h cs).
-  Notation ok := (node_ok h).
+  Variable okn : positive -> Prop.
+  Variable cmpf : positive -> positive -> Z.
+  Hypothesis okn_live : forall x, okn x -> x ∈ h_live h.
+  Hypothesis okn_key : forall m x, okn x -> get_key (Some x) (with_lnk h m) = Ret (key_ptr h x, with_lnk h m).
+  Hypothesis okn_cmp : forall m x y, okn x -> okn y ->
+    compare_strings (key_ptr h x) (key_ptr h y) cs (with_lnk h m) = Ret (cmpf x y, with_lnk h m).
+  Notation le := (le_of cmpf).
+  Notation ok := okn.
   Notation live x := (x ∈ h_live h).
 
   (** ** the sortedness pre-check *)
@@ -21,7 +34,7 @@ Section Loops.
     match l with
     | x :: r =>
         match r with
-        | y :: _ => if key_cmp cs (keyof h x) (keyof h y) <? 0 then scan_pure r else l
+        | y :: _ => if cmpf x y <? 0 then scan_pure r else l
         | [] => l
         end
     | [] => l
@@ -31,7 +44,7 @@ Section Loops.
   Proof.
     induction l as [|x r IH]; [exists []; reflexivity|].
     destruct r as [|y r']; [exists []; reflexivity|].
-    cbn [scan_pure]. destruct (key_cmp cs (keyof h x) (keyof h y) <? 0).
+    cbn [scan_pure]. destruct (cmpf x y <? 0).
     - destruct IH as [pre Hp]. exists (x :: pre). cbn [app]. f_equal. exact Hp.
     - exists []. reflexivity.
   Qed.
@@ -40,15 +53,15 @@ Section Loops.
   Proof.
     induction l as [|x r IH]; [congruence|]. intros _.
     destruct r as [|y r']; [cbn; congruence|].
-    cbn [scan_pure]. destruct (key_cmp cs (keyof h x) (keyof h y) <? 0); [apply IH|]; congruence.
+    cbn [scan_pure]. destruct (cmpf x y <? 0); [apply IH|]; congruence.
   Qed.
 
   Lemma scan_pure_sorted l : (length (scan_pure l) <= 1)%nat -> Sorted (fun a b => le a b = true) l.
   Proof.
     induction l as [|x r IH]; intros Hl; [constructor|].
     destruct r as [|y r']; [repeat constructor|].
-    cbn [scan_pure] in Hl. destruct (key_cmp cs (keyof h x) (keyof h y) <? 0) eqn:E.
-    - constructor; [apply IH; exact Hl|]. constructor. apply key_lt_le. exact E.
+    cbn [scan_pure] in Hl. destruct (cmpf x y <? 0) eqn:E.
+    - constructor; [apply IH; exact Hl|]. constructor. unfold le_of. apply Z.leb_le. apply Z.ltb_lt in E. lia.
     - cbn [length] in Hl. lia.
   Qed.
 
@@ -61,16 +74,16 @@ Section Loops.
     assert (ok x) as Hx by (apply Hok; left).
     destruct (chain_head _ _ _ _ Hc) as [p Hmx].
     cbn [scan_sorted head].
-    mstep (get_next_with h m x _ _ (node_ok_live _ _ Hx) Hmx).
+    mstep (get_next_with h m x _ _ (okn_live _ Hx) Hmx).
     destruct r as [|y r']; [reflexivity|]. cbn [head].
     assert (ok y) as Hy by (apply Hok; right; left).
-    mstep (get_key_with h m x Hx).
-    mstep (get_next_with h m x _ _ (node_ok_live _ _ Hx) Hmx).
-    mstep (get_key_with h m y Hy).
-    mstep (compare_strings_with h m cs x y Hx Hy).
+    mstep (okn_key m x Hx).
+    mstep (get_next_with h m x _ _ (okn_live _ Hx) Hmx).
+    mstep (okn_key m y Hy).
+    mstep (okn_cmp m x y Hx Hy).
     cbn [scan_pure].
-    destruct (key_cmp cs (keyof h x) (keyof h y) <? 0); [|reflexivity].
-    mstep (get_next_with h m x _ _ (node_ok_live _ _ Hx) Hmx).
+    destruct (cmpf x y <? 0); [|reflexivity].
+    mstep (get_next_with h m x _ _ (okn_live _ Hx) Hmx).
     apply (IH (y :: r')).
     - eapply seg_tail. exact Hc.
     - intros z Hz. apply Hok. right. exact Hz.
@@ -103,6 +116,60 @@ Section Loops.
         * exists (S k). split.
           -- rewrite Hk. destruct ls; [cbn [length] in Hl; lia|reflexivity].
           -- cbn [length]. lia.
+  Qed.
+
+  Lemma split_point l : (2 <= length l)%nat ->
+    exists k, mid l l = drop k l /\ take (length l - length (mid l l)) l = take k l /\ (1 <= k < length l)%nat.
+  Proof.
+    intros Hl. destruct (mid_drop (length l) l l ltac:(lia) ltac:(lia)) as (k & Hk & Hk2).
+    exists k. split; [exact Hk|]. rewrite Hk, drop_length. split; [f_equal; lia|lia].
+  Qed.
+
+  (** ** what [sort_list] computes, as a list function (same recursion, same fuel) *)
+  Fixpoint msort (fuel : nat) (l : list positive) : list positive :=
+    match fuel with
+    | O => l
+    | S f =>
+        match l with
+        | _ :: _ :: _ =>
+            if (length (scan_pure l) <=? 1)%nat then l
+            else merge_runs le (msort f (take (length l - length (mid l l)) l)) (msort f (mid l l))
+        | _ => l
+        end
+    end.
+
+  Lemma msort_cons2 f x y r :
+    msort (S f) (x :: y :: r) =
+    if (length (scan_pure (x :: y :: r)) <=? 1)%nat then x :: y :: r
+    else merge_runs le (msort f (take (length (x :: y :: r) - length (mid (x :: y :: r) (x :: y :: r))) (x :: y :: r)))
+                       (msort f (mid (x :: y :: r) (x :: y :: r))).
+  Proof. reflexivity. Qed.
+
+  Lemma msort_perm : forall f l, Permutation (msort f l) l.
+  Proof.
+    induction f as [|f IH]; intros l; [reflexivity|].
+    destruct l as [|x [|y r]]; [reflexivity|reflexivity|].
+    rewrite msort_cons2. destruct (length (scan_pure (x :: y :: r)) <=? 1)%nat; [reflexivity|].
+    destruct (split_point (x :: y :: r) ltac:(cbn [length]; lia)) as (k & Hk & Hk' & _).
+    rewrite Hk', Hk, merge_runs_perm, !IH. rewrite take_drop. reflexivity.
+  Qed.
+
+  (** for a total preorder it is the stable insertion sort *)
+  Lemma msort_isort :
+    (forall a b, le a b = true \/ le b a = true) ->
+    (forall a b c, le a b = true -> le b c = true -> le a c = true) ->
+    forall f l, (length l <= f)%nat -> msort f l = isort le l.
+  Proof.
+    intros Htot Htr. induction f as [|f IH]; intros l Hl.
+    - destruct l; [reflexivity|cbn in Hl; lia].
+    - destruct l as [|x [|y r]]; [reflexivity|reflexivity|].
+      rewrite msort_cons2. destruct (Nat.leb_spec (length (scan_pure (x :: y :: r))) 1) as [Hs|Hs].
+      + symmetry. apply isort_id. apply scan_pure_sorted. exact Hs.
+      + destruct (split_point (x :: y :: r) ltac:(cbn [length]; lia)) as (k & Hk & Hk' & Hk1).
+        rewrite Hk', Hk. rewrite !IH.
+        * rewrite (merge_isort le Htot Htr), take_drop. reflexivity.
+        * rewrite drop_length. lia.
+        * rewrite take_length. lia.
   Qed.
 
   Lemma find_middle_spec m : forall fuel ls lc,
@@ -225,21 +292,21 @@ Section Loops.
       split; [rewrite merge_runs_nil_r, app_nil_r; reflexivity|]. repeat split; try assumption; tauto. }
     assert (ok x) as Hx by (apply Hok; rewrite !elem_of_app; right; left; left).
     assert (ok y) as Hy by (apply Hok; rewrite !elem_of_app; right; right; left).
-    pose proof (node_ok_live _ _ Hx) as Lx. pose proof (node_ok_live _ _ Hy) as Ly.
+    pose proof (okn_live _ Hx) as Lx. pose proof (okn_live _ Hy) as Ly.
     destruct (chain_head _ _ _ _ Ha) as [px Hmx].
     destruct (chain_head _ _ _ _ Hb) as [py Hmy].
     apply NoDup_app in Hnd as Hnd3. destruct Hnd3 as (Hnacc & Hdis & Hnab).
     assert (forall z, z ∈ acc -> live z) as Lacc.
-    { intros z Hz. apply node_ok_live, Hok. apply elem_of_app. left. exact Hz. }
+    { intros z Hz. apply okn_live, Hok. apply elem_of_app. left. exact Hz. }
     assert (x ∉ acc) as Hxacc by (intros Hz; apply (Hdis x Hz); apply elem_of_app; left; left).
     assert (y ∉ acc) as Hyacc by (intros Hz; apply (Hdis y Hz); apply elem_of_app; right; left).
     assert (x <> y) as Hxy.
     { intros ->. apply NoDup_app in Hnab as (_ & Hd & _). apply (Hd y); left. }
     cbn [merge_loop head].
-    mstep (get_key_with h m x Hx).
-    mstep (get_key_with h m y Hy).
-    mstep (compare_strings_with h m cs x y Hx Hy).
-    change (key_cmp cs (keyof h x) (keyof h y) <=? 0) with (le x y).
+    mstep (okn_key m x Hx).
+    mstep (okn_key m y Hy).
+    mstep (okn_cmp m x y Hx Hy).
+    change (cmpf x y <=? 0) with (le x y).
     rewrite merge_runs_cons.
     destruct (le x y) eqn:E.
     - (* take from the first run *)
@@ -378,5 +445,117 @@ Section Loops.
       + eapply seg_tail. exact Hc.
       + intros z Hz. apply Hl. right. exact Hz.
       + cbn [length] in Hf. lia.
+  Qed.
+  (** ** [sort_list] *)
+
+  Lemma head_app_ne {A} (l1 l2 : list A) : l1 <> [] -> head (l1 ++ l2) = head l1.
+  Proof. destruct l1; [congruence|reflexivity]. Qed.
+
+  Lemma sort_list_spec : forall fuel l m,
+    (length l + 2 <= fuel)%nat -> chain m l -> NoDup l -> (forall x, x ∈ l -> ok x) ->
+    exists m', sort_list fuel (head l) cs (with_lnk h m) = Ret (head (msort fuel l), with_lnk h m') /\
+               chain m' (msort fuel l) /\
+               (forall z, z ∉ l -> m' !! z = m !! z).
+  Proof.
+    induction fuel as [|f IH]; intros l m Hf Hc Hnd Hok; [lia|].
+    destruct l as [|x r].
+    { exists m. split; [reflexivity|]. split; [exact I|reflexivity]. }
+    assert (ok x) as Hx by (apply Hok; left). pose proof (okn_live _ Hx) as Lx.
+    destruct (chain_head _ _ _ _ Hc) as [px Hmx].
+    cbn [sort_list head].
+    mstep (get_next_with h m x _ _ Lx Hmx).
+    destruct r as [|y r'].
+    { exists m. split; [reflexivity|]. split; [exact Hc|reflexivity]. }
+    cbn [head]. rewrite (msort_cons2 f x y r'). set (l := x :: y :: r') in *.
+    assert (forall z, z ∈ l -> z ∈ h_live h) as Hlive by (intros z Hz; apply okn_live, Hok, Hz).
+    (* the pre-check *)
+    rewrite (bind_eq _ _ _ _ _ (scan_sorted_spec m f l Hc Hok ltac:(cbn [length] in *; lia))).
+    destruct (scan_pure_suffix l) as [pre Hpre].
+    pose proof (scan_pure_nonempty l ltac:(discriminate)) as Hsne.
+    destruct (scan_pure l) as [|z w] eqn:Esp; [congruence|]. cbn [head]. cbn beta iota.
+    assert (chain m (z :: w)) as Hcz by (rewrite Hpre in Hc; eapply seg_suffix; exact Hc).
+    assert (z ∈ l) as Hzl by (rewrite Hpre; apply elem_of_app; right; left).
+    destruct (chain_head _ _ _ _ Hcz) as [pz Hmz].
+    assert ((n' <~ get_next (Some z) ;; ret (match n' with None => true | Some _ => false end)) (with_lnk h m)
+            = Ret (match head w with None => true | Some _ => false end, with_lnk h m)) as Hin.
+    { mstep (get_next_with h m z _ _ (Hlive z Hzl) Hmz). reflexivity. }
+    mstep Hin. clear Hin.
+    destruct w as [|w0 w']; cbn [head]; cbn beta iota.
+    { (* already sorted: left alone *)
+      exists m. cbn [length Nat.leb].
+      split; [reflexivity|]. split; [exact Hc|reflexivity]. }
+    cbn [length Nat.leb].
+    clear Hcz Hmz Hzl Hpre Hsne Esp pre pz z w0 w'.
+    (* the middle *)
+    rewrite (bind_eq _ _ _ _ _ (find_middle_spec m f l l Hc Hc Hlive Hlive ltac:(lia) ltac:(cbn [length] in *; lia))).
+    assert (2 <= length l)%nat as Hlen2 by (cbn; lia).
+    destruct (split_point l Hlen2) as (k & Hmid & Htk & Hk1 & Hk2).
+    rewrite Htk, Hmid.
+    pose proof (take_drop k l) as Htd.
+    assert (length (take k l) = k) as Hlt by (rewrite take_length; lia).
+    assert (length (drop k l) = (length l - k)%nat) as Hld by (apply drop_length).
+    destruct (take k l) as [|t0 l00] eqn:Et using rev_ind; [cbn in Hlt; lia|]. clear IHl00.
+    rename t0 into t. rename l00 into l0.
+    destruct (drop k l) as [|s r2] eqn:Ed; [exfalso; change (0%nat = (length l - k)%nat) in Hld; lia|].
+    assert (l = l0 ++ t :: s :: r2) as El by (rewrite <- Htd, <- app_assoc; reflexivity).
+    assert (forall z, z ∈ l0 ++ [t] -> z ∈ l) as In1 by (intros z Hz; rewrite <- Htd; apply elem_of_app; left; exact Hz).
+    assert (forall z, z ∈ s :: r2 -> z ∈ l) as In2 by (intros z Hz; rewrite <- Htd; apply elem_of_app; right; exact Hz).
+    assert (NoDup (l0 ++ [t]) /\ (forall z, z ∈ l0 ++ [t] -> z ∉ s :: r2) /\ NoDup (s :: r2)) as (Hnd1 & Hdis & Hnd2)
+      by (apply NoDup_app; rewrite Htd; exact Hnd).
+    (* the cut *)
+    assert (t ∈ l) as Htl by (apply In1, elem_of_app; right; left).
+    assert (s ∈ l) as Hsl by (apply In2; left).
+    destruct (split_spec m l0 t s r2 ltac:(rewrite <- El; exact Hc) ltac:(rewrite <- El; exact Hnd) (Hlive t Htl) (Hlive s Hsl))
+      as (m1 & Hrun1 & Hc1a & Hc1b & Hfr1).
+    mstep Hrun1.
+    (* first half *)
+    assert (Some x = head (l0 ++ [t])) as Hhd.
+    { assert (head l = head (l0 ++ [t])) as HH by (rewrite <- Htd; apply head_app_ne; destruct l0; discriminate). exact HH. }
+    rewrite Hhd.
+    destruct (IH (l0 ++ [t]) m1 ltac:(rewrite Hlt; cbn [length] in *; lia) Hc1a Hnd1 (fun z Hz => Hok z (In1 z Hz)))
+      as (m2 & Hrun2 & Hc2 & Hfr2).
+    mstep Hrun2.
+    (* second half *)
+    assert (chain m2 (s :: r2)) as Hc2b.
+    { eapply seg_frame; [|exact Hc1b]. intros z Hz. apply Hfr2. intros Hz'. exact (Hdis z Hz' Hz). }
+    change (Some s) with (head (s :: r2)).
+    destruct (IH (s :: r2) m2 ltac:(rewrite Hld; cbn [length] in *; lia) Hc2b Hnd2 (fun z Hz => Hok z (In2 z Hz)))
+      as (m3 & Hrun3 & Hc3 & Hfr3).
+    mstep Hrun3.
+    set (a := msort f (l0 ++ [t])) in *. set (b := msort f (s :: r2)) in *.
+    assert (forall z, z ∈ a <-> z ∈ l0 ++ [t]) as Ina by (intros z; unfold a; rewrite (msort_perm f (l0 ++ [t])); reflexivity).
+    assert (forall z, z ∈ b <-> z ∈ s :: r2) as Inb by (intros z; unfold b; rewrite (msort_perm f (s :: r2)); reflexivity).
+    assert (chain m3 a) as Hc3a.
+    { eapply seg_frame; [|exact Hc2]. intros z Hz. apply Hfr3. intros Hz'. apply Ina in Hz. exact (Hdis z Hz Hz'). }
+    (* the merge *)
+    assert (NoDup ([] ++ a ++ b)) as Hndab.
+    { cbn [app]. apply NoDup_app. split; [unfold a; rewrite (msort_perm f (l0 ++ [t])); exact Hnd1|]. split; [|unfold b; rewrite (msort_perm f (s :: r2)); exact Hnd2].
+      intros z Hz Hz'. apply Ina in Hz. apply Inb in Hz'. exact (Hdis z Hz Hz'). }
+    assert (forall z, z ∈ [] ++ a ++ b -> z ∈ l) as Inab.
+    { cbn [app]. intros z Hz. apply elem_of_app in Hz as [Hz|Hz]; [apply In1, Ina, Hz|apply In2, Inb, Hz]. }
+    assert (length a + length b = length l)%nat as Hlab.
+    { unfold a, b. rewrite (Permutation_length (msort_perm f (l0 ++ [t]))), (Permutation_length (msort_perm f (s :: r2))), Hlt, Hld. lia. }
+    destruct (merge_loop_spec f a b [] m3 ltac:(rewrite Hlab; cbn [length] in *; lia) Hndab
+                (fun z Hz => Hok z (Inab z Hz)) Hc3a Hc3 I)
+      as (acc' & a' & b' & m4 & Hrun4 & Hor & Heq & Ha4 & Hb4 & Hacc4 & Hfr4 & Hne1 & Hne2).
+    cbn [head last] in Hrun4. mstep Hrun4.
+    assert (length a = k) as Hla by (unfold a; rewrite (Permutation_length (msort_perm f (l0 ++ [t]))); exact Hlt).
+    assert (length b = (length l - k)%nat) as Hlb by (unfold b; rewrite (Permutation_length (msort_perm f (s :: r2))); exact Hld).
+    assert (a <> []) as Hane by (intros E; rewrite E in Hla; cbn [length] in Hla; lia).
+    assert (b <> []) as Hbne by (intros E; rewrite E in Hlb; cbn [length] in Hlb; lia).
+    cbn [app] in Heq. rename Heq into Hres.
+    assert (Permutation (acc' ++ a' ++ b') l) as Hperm.
+    { rewrite Hres, merge_runs_perm. unfold a, b. rewrite (msort_perm f (l0 ++ [t])), (msort_perm f (s :: r2)). rewrite Htd. reflexivity. }
+    assert (forall z, z ∈ acc' ++ a' ++ b' <-> z ∈ l) as Inres by (intros z; rewrite Hperm; reflexivity).
+    destruct (merge_finish_spec m4 acc' a' b' Hor (Hne1 (or_introl Hane)) (Hne2 (or_intror (conj Hane Hbne))) Ha4 Hb4 Hacc4
+                ltac:(rewrite Hperm; exact Hnd) (fun z Hz => Hlive z (proj1 (Inres z) Hz)))
+      as (m5 & Hrun5 & Hc5 & Hfr5).
+    exists m5. rewrite Hrun5, Hres. split; [reflexivity|]. split; [rewrite <- Hres; exact Hc5|].
+    intros z Hz.
+    rewrite Hfr5 by (intros Hz'; apply Hz, Inres, Hz').
+    rewrite Hfr4 by (intros Hz'; apply Hz, Inab, Hz').
+    rewrite Hfr3 by (intros Hz'; apply Hz, In2, Hz').
+    rewrite Hfr2 by (intros Hz'; apply Hz, In1, Hz').
+    apply Hfr1; intros ->; apply Hz; assumption.
   Qed.
 End Loops.
